@@ -43,7 +43,7 @@ def parseZ : Nat → List String → Option (ZTab × List String)
   | _, _ => none
 
 /-- hex without the leading `x` marker, as used inside event tokens -/
-def unhexBare (s : String) : Option Bytes := Hex.decodeChars s.toList
+def unhexBare (s : String) : Option Bytes := if s = "." then some [] else Hex.decodeChars s.toList
 def hexBare (b : Bytes) : String := String.ofList (Hex.encodeChars b)
 
 structure EncCase where
